@@ -66,7 +66,7 @@ def make_instances(prop, tier, seed, shapes, fn):
     rnd = random.Random(seed)
     insts = []
 
-    def add(shape, rep, kind, n, conc, faults=None, excluded=(), timeout=False, start=None, tag="", rt=0, custom=False):
+    def add(shape, rep, kind, n, conc, faults=None, excluded=(), timeout=False, start=None, tag="", rt=0, custom=False, prime=0):
         info = shape["reps"][rep - 1]
         heads = list(info["heads"])
         if not heads:
@@ -83,14 +83,15 @@ def make_instances(prop, tier, seed, shapes, fn):
         N = len(shape["D"])
         flt = ["ok"] * N
         for i, kd in (faults or {}).items():
-            flt[int(i) - 1] = "garbage" if kd.startswith("malformed") else kd
+            # (for the model a malformed block is undecodable, and an error is an error whatever it wraps)
+            flt[int(i) - 1] = "garbage" if kd.startswith("malformed") else ("error" if kd == "ctxerror" else kd)
         insts.append({
             "name": "i%d" % (len(insts) + 1), "shape": shape["shape"], "replica": rep, "Kind": kind, "N": n,
             "Length": eff_length(kind, n, k), "Conc": 32 if kind == "json" else conc, "K": k, "Start": st,
             "Fault": flt, "faults": {str(i): kd for i, kd in (faults or {}).items()},
             "Excluded": sorted(excluded), "Timeout": timeout, "D": shape["D"], "Fn": fn,
             "Orig": {"ents": info["ents"], "heads": heads, "values": info["values"], "lid": info["lid"]},
-            "tag": tag, "RealTimeout": rt, "CustomManifest": custom,
+            "tag": tag, "RealTimeout": rt, "CustomManifest": custom, "PrimeFrom": prime,
         })
 
     for shape in shapes:
@@ -108,6 +109,10 @@ def make_instances(prop, tier, seed, shapes, fn):
                     if kind == "json" and conc > 1:
                         continue
                     add(shape, rep, kind, -1, conc)
+                # the caller's LogOptions value has been used before, for a load of an older state of the log
+                oldest = info["values"][0] if info["values"] else 0
+                if kind != "mh" and oldest and oldest not in info["heads"]:
+                    add(shape, rep, kind, -1, 2, tag="reusedoptions", prime=oldest)
         elif prop == "C10":
             for kind in ("mh", "json", "entry", "entryhash"):
                 ns = range(0, size + 2)
@@ -142,10 +147,10 @@ def make_instances(prop, tier, seed, shapes, fn):
                 add(shape, rep, "fetch", -1, 1, faults={i: kd}, tag="malformed+conc1")
         elif prop == "C11":
             ids = sorted(info["ents"])
-            kinds = ["missing", "error", "garbage"]
+            kinds = ["missing", "error", "garbage", "ctxerror"]
             singles = ids if not q else rnd.sample(ids, min(3, len(ids)))
             for i in singles:
-                for kd in (kinds if not q else [kinds[(i + seed) % 3]]):
+                for kd in (kinds if not q else [kinds[(i + seed) % 4]]):
                     for conc in ((2,) if q else (1, 2, 3)):
                         add(shape, rep, "fetch", -1, conc, faults={i: kd}, tag="fault1")
                         add(shape, rep, "mh", -1, conc, faults={i: kd}, tag="fault1")
